@@ -288,7 +288,9 @@ def kde_multivariate(events_x, events_y, xout=None, yout=None, bw=None):
         bw = (bin_width_doane(events_x) / 2,
               bin_width_doane(events_y) / 2)
 
-    positions = np.vstack([xout.flatten(), yout.flatten()])
+    # shape (N, 2): one row per position (a (2, N) array is ambiguous for
+    # N=2 and would be interpreted as two rows of observations)
+    positions = np.column_stack([xout.flatten(), yout.flatten()])
     estimator_ly = KDEMultivariate(data=[events_x.flatten(),
                                          events_y.flatten()],
                                    var_type='cc', bw=bw)
